@@ -3,7 +3,8 @@
 set -u
 name=$1; prop=$2; shift 2
 git -C /repo status --short | grep -q . && { echo "/repo not clean"; exit 2; }
-git -C /repo apply /verif/seeded/$name/patch.diff || exit 2
+p=/verif/seeded/$name/patch.diff; [ -f /verif/seeded/$name/patch-current.diff ] && p=/verif/seeded/$name/patch-current.diff
+git -C /repo apply $p || exit 2
 /verif/vcheck $prop --no-evidence "$@"; rc=$?
 git -C /repo checkout -- .
 echo "seed=$name property=$prop exit=$rc"
